@@ -83,11 +83,30 @@ CONFIG = {
             "summaries count as scalars for the zero-iff-equal clause (equality and comparison both look at sum and count only)",
         ],
     },
+    "C04": {
+        "level": "fault_enumeration",
+        "rule": "C04: fault enumeration over generated valid encodings: every strict prefix, hostile count/length patterns at every offset, single hostile annotated fields, every short primitive read, every unknown type code.",
+        "groups": [G("c04", shards={"quick": 4, "thorough": 16}, timeout={"quick": 600, "thorough": 3000})],
+        "fuzz": [{"pkg": "c04", "name": "FuzzDecoders", "seconds": 240}],
+        "ulimit_v_kb": 8 * 1024 * 1024,
+        "assumptions": [
+            "reporting failure means a recoverable panic (the library's convention); a decoder that returns normally on a strict prefix is a violation unless the format defines that prefix as a complete message (only: a step stream cut at a step boundary)",
+            "memory bound: bytes allocated during one decode <= 1 MiB + 2048 x input length, measured with runtime/metrics /gc/heap/allocs:bytes on a locked OS thread (large objects are counted at once, small ones lazily: the meter can only under-report)",
+            "decompression (LogSinkZipPack.GetRecords) allocates proportionally to the decompressed size and is not part of the enumerated decoders; reading from a TCP connection is out of scope",
+            "termination is observed with a 30 s watchdog per decode",
+            "UDP tracer packs and HyperLogLog bytes are not among the decoders the statement names (value, step, record, pack)",
+        ],
+    },
 }
 
 NOT_APPLICABLE = {}
 
 MANIFEST_TEXT = {
+    "C04": {
+        "technique": "fault enumeration over generated encodings (every truncation offset, hostile length/count patterns at every offset, single hostile annotated field vs reference decoder), exhaustive short-read and unknown-code sweeps, native coverage-guided fuzzing with an allocation-bound oracle",
+        "level_text": "Fault enumeration: for generated valid encodings of every decoder the statement names (values, step streams, transaction/service records, all 37 pack type entries, record blobs, zip payloads) EVERY strict prefix is decoded and must be reported as failure, and 15 hostile count/length patterns are written over and inserted at EVERY offset with termination and a proportional-allocation bound checked per decode; every (read method, missing bytes) combination of the primitive reader and every type code of the four registries is enumerated exhaustively.",
+        "level_note": "The message space is sampled (hundreds to tens of thousands of messages), the fault space per message is enumerated completely for messages up to 1 KiB. Allocation is measured in-process; a worker that dies is replayed from its journal by the driver.",
+    },
     "C20": {
         "technique": "property-based testing: generated triples of near values checked against algebraic laws (totality, reflexivity, symmetry, transitivity, antisymmetry, type ordering, decode equality)",
         "level_text": "Generated-input exploration: each case is a triple of related values over all 20 types (clones, single mutations such as a reordered or re-keyed map, a changed summary count, a retyped element, independent values); all nine ordered pairs are evaluated and every law of the statement is asserted on them, plus the full 20x20 mixed-type matrix.",
